@@ -2,7 +2,7 @@
 import os
 
 from . import core
-from .rules import stdio, cert, mark, exact, optstore, inval, idx, atomic, own, tokens, idxclass, copy, pair, structfree, buf, div, counter, sentinel, appendinit, verdict, basismap, zerotol, escape, lenclass, djsym, ndet, useb4check, norms, opencheck, shell, esolver, errlost, rescan, certdep, neverset, fmt, defaults, scratch, fullscan, slotleak, floatidx, sensemap, trunc, vtypezero, allockind, intdiv, strscan
+from .rules import stdio, cert, mark, exact, optstore, inval, idx, atomic, own, tokens, idxclass, copy, pair, structfree, buf, div, counter, sentinel, appendinit, verdict, basismap, zerotol, escape, lenclass, djsym, ndet, useb4check, norms, opencheck, shell, esolver, errlost, rescan, certdep, neverset, fmt, defaults, scratch, fullscan, slotleak, floatidx, sensemap, trunc, vtypezero, allockind, intdiv, strscan, localfield
 from .effects import Effects
 
 FIX = os.path.join(os.path.dirname(os.path.abspath(__file__)), "fixtures")
@@ -460,6 +460,7 @@ PROPS = {
     },
     "C12": {
         "rules": [lambda prog, tier: verdict.run(prog),
+                  lambda prog, tier: localfield.run(prog, shared_eff(prog), scope=lambda f: f.unit.endswith("qsopt_ex/exact.c") or "fct_mpq" in f.unit or "basis_mpq" in f.unit, floor=8),
                   lambda prog, tier: vtypezero.run(prog),
                   lambda prog, tier: basismap.run(prog),
                   lambda prog, tier: djsym.run(prog),
@@ -529,6 +530,7 @@ PROPS = {
                   lambda prog, tier: floatidx.run(prog),
                   lambda prog, tier: allockind.run(prog),
                   lambda prog, tier: intdiv.run(prog),
+                  lambda prog, tier: localfield.run(prog, shared_eff(prog)),
                   lambda prog, tier: strscan.run(prog),
                   lambda prog, tier: appendinit.run(prog),
                   lambda prog, tier: counter.run(prog),
@@ -670,7 +672,7 @@ _ADD = {
                            "a failing callee is examined before it is overwritten."},
     "C12": {"explanation": " (R-VTYPEZERO) wherever the simplex chooses a non-basic status from the variable type (initial basis, singular-basis "
                            "repair) STAT_ZERO is reachable for a free variable only, so the basic solution of the returned basis takes every non-basic "
-                           "variable at one of its bounds."},
+                           "variable at one of its bounds. (R-LOCALFIELD) the verdict functions read no field of a local record that nothing wrote."},
     "C13": {"technique": "; control-dependence analysis of scratch-mark resets and dependency-counter updates on conditions over exact numbers",
             "explanation": " (R-SCRATCH) in the sparse kernels no clearing of a scratch mark (lpinfo::iwork) and no update of a dependency counter "
                            "(ur/uc/lr/lc_info::delay) is control-dependent on the value of an exact number: an exact cancellation must not change the "
